@@ -1,24 +1,30 @@
 """C47 - flow edits through mitmweb are atomic (FlowHandler.put).
 
-Decided (structural clauses, nothing executed):
-  R47.1 (E5) every exception that can be raised inside the edit loop of ``FlowHandler.put`` on an untrusted JSON document (explicit
-        APIError, int(v) -> ValueError/TypeError/OverflowError, add(*header) -> TypeError, .items()/iteration on a non-dict/non-list,
-        and everything raised by the Request/Response property setters the loop triggers: idna/ascii encoding, type checks, content
-        encoders) reaches a handler that restores the flow before anything else happens.  Exceptions of the once-evaluated loop
-        iterable (``self.json``: malformed JSON) happen before any mutation and are exempt.
+Decided (nothing executed).  The *edit* is the body of the one try statement with handlers on the unconditional spine of ``put`` (top
+level, inside ``with`` / try-finally); the *flow* is ``self.flow`` or a local alias; helpers of the handler class and module functions
+of app.py are followed; local names, statement order, if/match, annotations, logging and assertions do not matter.
+  R47.1 (E5) every exception that can be raised inside the edit on an untrusted JSON document (explicit APIError, int(v) ->
+        ValueError/TypeError/OverflowError, add(*header) -> TypeError, .items()/iteration on a non-dict/non-list, and everything raised
+        by the Request/Response property setters the edit triggers: idna/ascii encoding, type checks, content encoders) reaches a handler
+        that restores the flow (``<flow>.set_state(x)`` / ``<flow>.revert()``, directly or through a helper) before anything else can
+        happen; and nothing raised on untrusted data leaves ``put`` between a mutation placed before the try statement and that statement.
   R47.2 the restore point is taken before the first mutation on every path, and every normally completing path notifies the view
-        (``self.view.update([flow])``).
-  R47.3 the state restored by the failure handler is the state at entry of ``put``: either a local snapshot
-        ``X = flow.get_state()`` restored with ``flow.set_state(X)``, or ``backup()``/``revert()`` with an unconditional backup.
+        (``...view.update(..)``).  Mutation = attribute / item store on anything but the handler object, setattr, or a mutator method
+        (clear, add, insert, ...), also inside inlined helpers.
+  R47.3 the state restored by the failure handler is the state at entry of ``put``: either a local bound once, unconditionally before
+        the edit, to ``<flow>.get_state()`` and restored with ``<flow>.set_state(X)``, or ``backup()``/``revert()`` with an unconditional
+        backup.  ``set_state(<flow>.get_state())`` evaluated in the handler is reported.
   R47.4 (E3, pyint) the restore point is a *snapshot*: ``HTTPFlow.get_state`` (with ``Flow.get_state``, ``Message.get_state``,
         ``MessageData.get_state``, ``MultiDict.get_state``) is interpreted from its AST on an abstract flow for every combination of
         request/response headers {empty, non-empty} x trailers {None, empty, non-empty} x response {present, absent}; the returned state
         must not contain (at any depth) one of the live objects of the flow - in particular none of the four ``Headers`` objects the edit
-        loop mutates in place (``.clear()``/``.add()``, and the ``text``/``content`` setters).  A live object inside the snapshot is edited
+        mutates in place (``.clear()``/``.add()``, and the ``text``/``content`` setters).  A live object inside the snapshot is edited
         together with the flow, so ``set_state(old_state)`` "restores" the rejected edit - clause "leaves the flow exactly as it was".
         Truthiness of a Headers object is modelled as "has fields" (checked: no ``__bool__`` in the MRO and the interpreted ``__len__`` is 0
         exactly for an object without fields).
-The edit document is ``self.json`` or a local alias of it bound before the loop (R47.1/R47.2 follow the alias).
+Untrusted data is ``self.json`` and every local computed from it before the try statement.  ``<flow>.request`` / ``<flow>.response`` and
+un-annotated locals bound to them are typed http.Request / http.Response (so their property setters are analysed with or without the
+annotated temporaries).
 NOT decided: that set_state(get_state()) is the identity (C36/C40 territory); exceptions outside the modelled table; flows other than
 HTTPFlow.
 """
@@ -36,6 +42,7 @@ from ..paths import traces_of
 from ..selftest import Mutant
 from ._helpers_H import Config
 from ._helpers_H import MayRaise
+from ._helpers_H import _own_nodes
 
 PROP = "C47"
 REG = {
@@ -54,59 +61,155 @@ FLOW = "mitmproxy/flow.py"
 HTTP = "mitmproxy/http.py"
 QUAL = "FlowHandler.put"
 
-RESTORE_CALLS = ("flow.revert", "flow.set_state")
+RESTORE_METHODS = ("revert", "set_state")
+# in-place mutators of the objects put() edits (Headers / MultiDict / list / dict API); matched on the method name, any receiver
+MUTATORS = frozenset("clear add insert set_all update pop popitem setdefault extend append remove sort reverse set_text set_content "
+                     "__setitem__ __delitem__ __setattr__ decode encode".split())
 
 
-def _restoring(handler: ast.ExceptHandler):
-    """The restore call when the handler restores the flow as its first action, else None."""
-    for st in handler.body:
-        if isinstance(st, ast.Expr) and isinstance(st.value, ast.Call) and norm(st.value.func) in RESTORE_CALLS:
-            return st.value
-        if isinstance(st, (ast.Raise, ast.Return, ast.If, ast.For, ast.While, ast.Try, ast.With)):
+def _single_bindings(fn):
+    """local name -> (value expression, binding statement) for the locals of ``fn`` that are bound exactly once, by a plain
+    ``x = e`` / ``x: T = e`` statement (a bare declaration ``x: T`` is not a binding); parameters are excluded."""
+    declared = {id(n.target) for n in _own_nodes(fn) if isinstance(n, ast.AnnAssign) and n.value is None}
+    stores: dict[str, int] = {}
+    vals = {}
+    for n in _own_nodes(fn):
+        if isinstance(n, ast.Name) and isinstance(n.ctx, (ast.Store, ast.Del)) and id(n) not in declared:
+            stores[n.id] = stores.get(n.id, 0) + 1
+        if isinstance(n, ast.Assign) and len(n.targets) == 1 and isinstance(n.targets[0], ast.Name):
+            vals[n.targets[0].id] = (n.value, n)
+        elif isinstance(n, ast.AnnAssign) and n.value is not None and isinstance(n.target, ast.Name):
+            vals[n.target.id] = (n.value, n)
+    a = fn.args
+    ps = {x.arg for x in a.posonlyargs + a.args + a.kwonlyargs} | {x.arg for x in (a.vararg, a.kwarg) if x is not None}
+    return {k: v for k, v in vals.items() if stores.get(k) == 1 and k not in ps}
+
+
+def _closure(fn, seeds):
+    """``seeds`` plus the single-assignment locals of ``fn`` that are plain aliases of one of them (text of the expression)."""
+    names = set(seeds)
+    single = _single_bindings(fn)
+    changed = True
+    while changed:
+        changed = False
+        for k, (v, _) in single.items():
+            if k not in names and norm(v) in names:
+                names.add(k)
+                changed = True
+    return names
+
+
+def _spine(fn):
+    """[(statements executed unconditionally before it, Try)] for the try statements with handlers that lie on the unconditional
+    spine of ``fn`` (top level, descending into ``with`` blocks and handler-less try/finally bodies)."""
+    found, pre = [], []
+
+    def walk(stmts):
+        for s in stmts:
+            if isinstance(s, ast.Try) and s.handlers:
+                found.append((list(pre), s))
+            elif isinstance(s, (ast.With, ast.AsyncWith)) or (isinstance(s, ast.Try) and not s.handlers):
+                walk(s.body)
+            pre.append(s)
+
+    walk(fn.body)
+    return found
+
+
+def _restore_in(model, cls_qual, stmts, flows, depth=0):
+    """(method, snapshot argument | None, call) when the statement list restores the flow before anything else can happen: its first
+    compound / raise / return statement comes after a ``<flow>.set_state(x)`` / ``<flow>.revert()`` call; a ``self.helper(...)`` call
+    is followed into the helper (arguments mapped onto its parameters).  A conditional restore is not a restore."""
+    for st in stmts:
+        if isinstance(st, ast.Expr) and isinstance(st.value, ast.Call):
+            c = st.value
+            f = c.func
+            if isinstance(f, ast.Attribute) and f.attr in RESTORE_METHODS and norm(f.value) in flows:
+                return f.attr, (c.args[0] if len(c.args) == 1 and not c.keywords else None) if f.attr == "set_state" else None, c
+            if depth < 2 and isinstance(f, ast.Attribute) and isinstance(f.value, ast.Name) and f.value.id in ("self", "cls") and model.method(APP, cls_qual, f.attr) is not None:
+                m, callee = model.method(APP, cls_qual, f.attr)
+                decs = {norm(d) for d in callee.decorator_list}
+                ps = [a.arg for a in callee.args.posonlyargs + callee.args.args][0 if "staticmethod" in decs else 1:]
+                if any(isinstance(a, ast.Starred) for a in c.args) or any(k.arg is None for k in c.keywords) or len(c.args) > len(ps):
+                    continue
+                bound = dict(zip(ps, c.args))
+                bound.update({k.arg: k.value for k in c.keywords})
+                inner = _restore_in(model, cls_qual, callee.body, _closure(callee, {"self.flow"} | {p for p, a in bound.items() if norm(a) in flows}), depth + 1)
+                if inner is not None:
+                    snap = inner[1]
+                    if snap is not None:
+                        snap = bound.get(snap.id) if isinstance(snap, ast.Name) and snap.id in bound and snap.id not in {k for k in _single_bindings(callee)} else None
+                    return inner[0], snap, c
+        if isinstance(st, (ast.Raise, ast.Return, ast.If, ast.For, ast.While, ast.Try, ast.With, ast.Match, ast.AsyncFor, ast.AsyncWith)):
             return None  # something else happens first (a conditional restore is not a restore)
     return None
 
 
+def _is_mut_target(text: str) -> bool:
+    """An attribute / item store on anything but the handler object itself (``self.flow.x`` is the flow) is taken for a mutation of the flow."""
+    return "." in text and (not text.startswith("self.") or text.startswith("self.flow."))
+
+
+def _local_types(frame):
+    """Types the annotations of a function do not spell out: ``<flow>.request`` / ``<flow>.response`` of the edited (HTTP) flow - and
+    un-annotated single-assignment locals bound to them - are http.Request / http.Response, so that their property setters are analysed
+    whether or not the code keeps them in annotated locals.  (Flows other than HTTPFlow are outside the property, see NOT decided.)"""
+    fn = frame.fn
+    flows = _closure(fn, {"self.flow"} | {n for n, (_, c) in frame.types.items() if c.name in ("Flow", "HTTPFlow")})
+    out = {}
+    for f in flows:
+        out[f + ".request"] = (HTTP, "Request")
+        out[f + ".response"] = (HTTP, "Response")
+    for k, (v, _) in _single_bindings(fn).items():
+        if norm(v) in out:
+            out[k] = out[norm(v)]
+    return out
+
+
 def check(ctx):
-    ctx.rule("R47.1", "escape set of the edit loop is within the handlers that restore the flow")
+    ctx.rule("R47.1", "escape set of the edit (the body of put's try statement) is within the handlers that restore the flow")
     ctx.rule("R47.2", "restore point taken before the first mutation; success paths call view.update")
     ctx.rule("R47.3", "the restore point used on failure is the state at entry of put")
     fn = ctx.func(APP, QUAL)
+    cls_qual = QUAL.rsplit(".", 1)[0]
     ctx.func(FLOW, "Flow.backup")
     ctx.func(FLOW, "Flow.revert")
-    tries = [s for s in fn.body if isinstance(s, ast.Try)]
-    ctx.require(len(tries) == 1, "FlowHandler.put: expected exactly one top-level try around the edit loop")
-    t = tries[0]
-    loops = [s for s in t.body if isinstance(s, ast.For)]
-    # the edit document: self.json, or a local bound exactly once (before the try) to self.json
-    aliases = set()
-    for st in fn.body[: fn.body.index(t)]:
-        tgt = st.targets[0] if isinstance(st, ast.Assign) and len(st.targets) == 1 else st.target if isinstance(st, ast.AnnAssign) and st.value is not None else None
-        if isinstance(tgt, ast.Name) and norm(st.value) == "self.json":
-            stores = [n for n in walk_in_order(fn) if isinstance(n, ast.Name) and n.id == tgt.id and isinstance(n.ctx, (ast.Store, ast.Del))]
-            if len(stores) == 1:
-                aliases.add(tgt.id)
-    it = loops[0].iter if len(loops) == 1 else None
-    doc = it.func.value if isinstance(it, ast.Call) and isinstance(it.func, ast.Attribute) and it.func.attr == "items" and not it.args and not it.keywords else None
-    ctx.require(len(loops) == 1 and len(t.body) == 1 and doc is not None and (norm(doc) == "self.json" or (isinstance(doc, ast.Name) and doc.id in aliases)),
-                "FlowHandler.put: the edit loop over self.json.items() changed shape")
-    loop = loops[0]
-    ctx.require(isinstance(loop.target, ast.Tuple) and len(loop.target.elts) == 2, "edit loop target is not (key, value)")
-    a, b = (norm(x) for x in loop.target.elts)
+    flows = _closure(fn, {"self.flow"})  # texts that denote the edited flow
+    tries = _spine(fn)
+    # the edit is guarded by the try statement that has a restoring handler (other try statements - e.g. around the view update - are not it)
+    restoring = [(p, x) for p, x in tries if any(_restore_in(ctx.model, cls_qual, h.body, flows) is not None for h in x.handlers)]
+    ctx.require(len(restoring) == 1 or (not restoring and len(tries) == 1),
+                f"FlowHandler.put: expected exactly one try statement with a restoring handler on the unconditional spine of put, found {len(restoring)} of {len(tries)}")
+    pre, t = (restoring or tries)[0]
+    # untrusted data: the decoded JSON document (self.json) and every local computed from it before the try statement
+    single = _single_bindings(fn)
+    env = {"self.json": "A"}
+    changed = True
+    while changed:
+        changed = False
+        for st in pre:
+            for n in [st] + list(_own_nodes(st)):
+                tgts, val = ([n.target], n.value) if isinstance(n, (ast.AnnAssign, ast.NamedExpr, ast.AugAssign)) else (n.targets, n.value) if isinstance(n, ast.Assign) else ([], None)
+                if val is None or not any(norm(x) in env for x in ast.walk(val) if isinstance(x, (ast.Name, ast.Attribute))):
+                    continue
+                for tg in tgts:
+                    for x in ast.walk(tg):
+                        if isinstance(x, ast.Name) and isinstance(x.ctx, ast.Store) and x.id not in env:
+                            env[x.id] = "A"
+                            changed = True
 
     # ---- R47.1
-    cfg = Config(externals={
+    cfg = Config(local_types=_local_types, externals={
         "zlib.compress": (("Exception",), "V"), "brotli.compress": (("Exception",), "V"), "zstd.compress": (("Exception",), "V"),
         "codecs.encode": (("LookupError", "ValueError", "TypeError"), "V"), "CachedDecode": ((), "V"),
     })
     ctx.trust("zlib/brotli/zstd compress and codecs.encode raise Exception subclasses only")
     mr = MayRaise(ctx, cfg)
-    env = {"self.json": "A", a: "A", b: "A", **{n: "A" for n in aliases}}
-    esc = mr.region(APP, QUAL, loop.body + loop.orelse, env)
+    esc = mr.region(APP, QUAL, t.body, env)
     key = mr.key_of_region(APP, QUAL, env)
     ctx.require(mr.sites >= 30 and len(mr.functions) >= 15, f"escape analysis collapsed: {mr.sites} sites, {sorted(mr.functions)}")
     ctx.require({"APIError", "ValueError", "TypeError", "AttributeError"} <= {e.exc for e in esc},
-                f"modelled raisers of the edit loop vanished: {sorted({e.exc for e in esc})}")
+                f"modelled raisers of the edit vanished: {sorted({e.exc for e in esc})}")
     ctx.paths += mr.sites
     for f in mr.functions:
         ctx.functions.add(f)
@@ -114,18 +217,57 @@ def check(ctx):
     hs = []
     for h in t.handlers:
         names = ["BaseException"] if h.type is None else [mr.h.canon(mod, e) for e in (h.type.elts if isinstance(h.type, ast.Tuple) else [h.type])]
-        hs.append((h, names, _restoring(h)))
+        hs.append((h, names, _restore_in(ctx.model, cls_qual, h.body, flows)))
     bad = {}
     for e in sorted(esc, key=lambda e: (e.exc, e.rel, e.qual, e.text)):
         hit = next(((h, r) for h, names, r in hs if any(mr.h.isa(e.exc, n) for n in names)), None)
         if hit is None:
-            bad.setdefault(e.exc, ("no handler of the edit loop catches it", e))
+            bad.setdefault(e.exc, ("no handler of the edit catches it", e))
         elif hit[1] is None:
             bad.setdefault(e.exc, (f"the handler `except {norm(hit[0].type) if hit[0].type else ''}` does not restore the flow first", e))
     for typ, (why, e) in sorted(bad.items()):
         ctx.fail("R47.1", (APP, QUAL, t), f"{typ} leaves the edit loop without a revert",
                  f"{typ} raised at {e.site()} ({e.why}): {why}; earlier fields of the same edit stay applied; call chain: " + " -> ".join(mr.chain(key, e)),
                  chain=mr.chain(key, e))
+    # mutations between the restore point and the try statement are not covered by any handler: nothing raised there on untrusted data
+    # may leave put() (statements after the try run only when the whole edit was applied)
+    amod = ctx.model.module(APP)
+
+    def resolver(call):
+        # private helpers of the handler (self._x(...), FlowHandler._x(...)) and module functions of app.py are inlined
+        f = call.func
+        if isinstance(f, ast.Attribute) and isinstance(f.value, ast.Name) and f.value.id in ("self", "cls", cls_qual):
+            r = ctx.model.method(APP, cls_qual, f.attr)
+            return r[1] if r is not None and r[0].rel == APP else None
+        if isinstance(f, ast.Name):
+            r = ctx.model.resolve_name(amod, f)
+            return r[1] if r is not None and r[0].rel == APP and isinstance(r[1], ast.FunctionDef) else None
+        return None
+
+    def mutates(node, depth=0):
+        for n in [node] + list(_own_nodes(node)):
+            tg = n.targets if isinstance(n, (ast.Assign, ast.Delete)) else [n.target] if isinstance(n, (ast.AugAssign, ast.AnnAssign)) and getattr(n, "value", True) is not None else []
+            for x in tg:
+                for e in ast.walk(x):
+                    if isinstance(e, (ast.Attribute, ast.Subscript)) and isinstance(e.ctx, (ast.Store, ast.Del)) and _is_mut_target(norm(e)):
+                        return True
+            if isinstance(n, ast.Call):
+                if (isinstance(n.func, ast.Name) and n.func.id == "setattr") or (isinstance(n.func, ast.Attribute) and n.func.attr in MUTATORS):
+                    return True
+                callee = resolver(n) if depth < 3 else None
+                if callee is not None and any(mutates(s, depth + 1) for s in callee.body):
+                    return True
+        return False
+
+    first = next((i for i, st in enumerate(pre) if mutates(st)), None)
+    if first is not None:
+        outside = mr.region(APP, QUAL, pre[first:], env)
+        for e in sorted(outside, key=lambda e: (e.exc, e.rel, e.qual, e.text)):
+            if e.exc not in bad:
+                bad[e.exc] = ("raised outside the try statement", e)
+                ctx.fail("R47.1", (APP, QUAL, pre[first]), f"{e.exc} leaves put() outside the restoring try statement",
+                         f"`{norm(pre[first])[:60]}` mutates the flow before the try statement is entered and {e.exc} raised at {e.site()} ({e.why}) is not answered by any "
+                         "restoring handler: the part of the edit applied so far stays")
     if not bad:
         ctx.ok("R47.1", f"{mr.sites} raiser sites in {len(mr.functions)} functions; escape set {sorted({e.exc for e in esc})} all reach a restoring handler")
     ctx.sample({"rule": "R47.1", "escape_set": sorted({e.exc for e in esc}), "handlers": [(names, bool(r)) for _, names, r in hs],
@@ -134,20 +276,22 @@ def check(ctx):
 
     # ---- R47.3 (which restore point) and R47.2 (when it is taken)
     restores = [r for _, _, r in hs if r is not None]
-    ctx.require(restores, "no handler of the edit loop restores the flow (R47.1 reports it); restore point unknown") if not bad else None
-    pre = fn.body[: fn.body.index(t)]
-    point = None  # text of the call that takes the restore point
-    for r in restores:
-        what = norm(r.func)
-        if what == "flow.set_state":
-            ctx.require(len(r.args) == 1 and isinstance(r.args[0], ast.Name), f"unmodelled restore {norm(r)}")
-            snap = r.args[0].id
-            defs = [s for s in pre if isinstance(s, ast.Assign) and any(isinstance(x, ast.Name) and x.id == snap for x in s.targets)]
-            writes = [n for n in walk_in_order(fn) if isinstance(n, ast.Name) and n.id == snap and isinstance(n.ctx, ast.Store)]
-            ok = len(defs) == 1 and len(writes) == 1 and norm(defs[0].value) == "flow.get_state()"
-            ctx.check(ok, "R47.3", (APP, QUAL, r), f"{norm(r)} restores a snapshot taken at entry",
-                      f"`{snap}` is not an unconditional top-level `flow.get_state()` snapshot taken before the edit loop", desc=f"snapshot {snap} = flow.get_state() restored on failure")
-            point = "flow.get_state"
+    ctx.require(restores, "no handler of the edit restores the flow (R47.1 reports it); restore point unknown") if not bad else None
+    point = None  # method that takes the restore point
+    for what, snap, r in restores:
+        if what == "set_state":
+            if isinstance(snap, ast.Call) and isinstance(snap.func, ast.Attribute) and snap.func.attr == "get_state" and norm(snap.func.value) in flows:
+                ctx.fail("R47.3", (APP, QUAL, r), "flow.set_state(<snapshot>) restores a snapshot taken at entry",
+                         f"the failure handler restores `{norm(snap)}` evaluated at the time of the failure: that state already contains the rejected part of the edit")
+                point = "get_state"
+                continue
+            ctx.require(isinstance(snap, ast.Name), f"unmodelled restore {norm(r)}")
+            val, st = single.get(snap.id, (None, None))
+            ok = st is not None and any(st is p for p in pre) and isinstance(val, ast.Call) and isinstance(val.func, ast.Attribute) and val.func.attr == "get_state" \
+                and norm(val.func.value) in flows and not val.args and not val.keywords
+            ctx.check(ok, "R47.3", (APP, QUAL, r), "flow.set_state(<snapshot>) restores a snapshot taken at entry",
+                      f"`{snap.id}` is not an unconditional `flow.get_state()` snapshot taken once before the edit", desc=f"snapshot {snap.id} = flow.get_state() restored on failure")
+            point = "get_state"
         else:
             bk = ctx.func(FLOW, "Flow.backup")
             stores = [s for s in walk_in_order(bk) if isinstance(s, ast.Assign) and any(norm(x) == "self._backup" for x in s.targets)]
@@ -155,19 +299,23 @@ def check(ctx):
             ctx.check(uncond, "R47.3", (APP, QUAL, r), "flow.revert() restores the oldest backup, not the state at entry",
                       "Flow.backup() keeps an existing backup (`if not self._backup`), so after an earlier successful edit a failing edit reverts to "
                       "the state before BOTH edits: the flow is not left exactly as it was", desc="backup() unconditional")
-            point = "flow.backup"
+            point = "backup"
     ctx.expect_instances("R47.3", 1) if restores else None
 
     if point is not None:
-        def keep(ev):
-            if ev[0] == "call":
-                return ev[1] in (point, "self.view.update", "setattr") or ev[1].split(".")[-1] in ("clear", "add")
-            return ev[0] == "assign" and "." in ev[1] and (ev[1].split(".")[0] in ("flow", "request", "response") or ev[1].startswith("self.flow."))
+        def is_point(ev):
+            return ev[0] == "call" and "." in ev[1] and ev[1].rsplit(".", 1)[1] == point and ev[1].rsplit(".", 1)[0] in flows
 
-        traces, eng = traces_of(fn, GenericSpec(keep=keep, unroll=1))
+        def is_update(ev):
+            return ev[0] == "call" and (ev[1] == "view.update" or ev[1].endswith(".view.update"))
+
+        def is_mut(ev):
+            if ev[0] == "call":
+                return not is_point(ev) and not is_update(ev) and (ev[1] == "setattr" or ev[1].rsplit(".", 1)[-1] in MUTATORS and "." in ev[1])
+            return ev[0] in ("assign", "del") and _is_mut_target(ev[1])
+
+        traces, eng = traces_of(fn, GenericSpec(keep=lambda ev: is_point(ev) or is_update(ev) or is_mut(ev), resolver=resolver, unroll=1))
         ctx.paths += len(traces)
-        is_point = lambda ev: ev == ("call", point)  # noqa: E731
-        is_mut = lambda ev: ev[0] == "assign" or (ev[0] == "call" and ev[1] not in (point, "self.view.update"))  # noqa: E731
         muts = sum(1 for tr, how, st in traces for ev in tr if is_mut(ev))
         ctx.require(muts >= 10, f"R47.2: mutation events vanished from the model ({muts})")
         early = []  # mutation events that happen before the restore point exists on some path
@@ -178,12 +326,12 @@ def check(ctx):
                 if is_mut(ev) and ev not in early:
                     early.append(ev)
         ok = all(precedes(tr, is_point, is_mut) for tr, how, st in traces) and not early
-        ctx.check(ok, "R47.2", (APP, QUAL, fn), f"{point}() precedes the first mutation",
+        ctx.check(ok, "R47.2", (APP, QUAL, fn), f"flow.{point}() precedes the first mutation",
                   "a path mutates the flow before the restore point is taken: " + ", ".join(sorted(f"{ev[0]} {ev[1]}" for ev in early)[:6])
-                  + f" happen(s) before {point}(), so the state restored on failure already contains that part of the rejected edit",
-                  desc=f"{point}() precedes every mutation on {len(traces)} paths")
+                  + f" happen(s) before flow.{point}(), so the state restored on failure already contains that part of the rejected edit",
+                  desc=f"flow.{point}() precedes every mutation on {len(traces)} paths")
         done = [tr for tr, how, st in traces if how == "return"]
-        ok = bool(done) and all(any(ev == ("call", "self.view.update") for ev in tr) for tr in done)
+        ok = bool(done) and all(any(is_update(ev) for ev in tr) for tr in done)
         ctx.check(ok, "R47.2", (APP, QUAL, fn), "self.view.update([flow]) on every completing path", "an applied edit is not announced to the view",
                   desc=f"view.update on all {len(done)} completing paths")
         ctx.expect_instances("R47.2", 2)
@@ -311,6 +459,11 @@ MUTANTS = [
            "        update: dict = self.json\n        if \"comment\" in update:\n            flow.comment = update.pop(\"comment\")\n        old_state = flow.get_state()\n        flow.backup()\n        try:\n            for a, b in update.items():", "R47.2"),
     Mutant("headers-cleared-before-snapshot", APP, "        old_state = flow.get_state()\n", "        if \"headers\" in self.json.get(\"request\", {}):\n            self.flow.request.headers.clear()\n        old_state = flow.get_state()\n", "R47.2"),
     Mutant("view-not-updated", APP, "            raise\n        self.view.update([flow])\n\n\nclass DuplicateFlow", "            raise\n\n\nclass DuplicateFlow", "R47.2"),
+    # generalised shapes: a field applied outside the restoring try statement; the handler restores a state taken at failure time
+    Mutant("fields-applied-before-the-try", APP, "        flow.backup()\n        try:\n            for a, b in self.json.items():",
+           "        flow.backup()\n        if \"marked\" in self.json:\n            flow.marked = self.json[\"marked\"]\n        if \"request\" in self.json and \"port\" in self.json[\"request\"]:\n"
+           "            flow.request.port = int(self.json[\"request\"].pop(\"port\"))\n        try:\n            for a, b in self.json.items():", "R47.1"),
+    Mutant("restores-state-taken-at-failure", APP, H_OLD, H_OLD.replace("flow.set_state(old_state)", "flow.set_state(flow.get_state())"), "R47.3"),
     # R47.4 - seed C47b and other ways of leaving a live object in the snapshot
     Mutant("snapshot-keeps-empty-trailers-object", HTTP, "        if state[\"trailers\"] is not None:\n            state[\"trailers\"] = state[\"trailers\"].get_state()", "        if state[\"trailers\"]:\n            state[\"trailers\"] = state[\"trailers\"].get_state()", "R47.4"),
     Mutant("snapshot-keeps-headers-object", HTTP, "        state[\"headers\"] = state[\"headers\"].get_state()\n        if state[\"trailers\"] is not None:", "        if state[\"trailers\"] is not None:", "R47.4"),
